@@ -15,6 +15,7 @@ import (
 
 	"github.com/buildbuildio/pebbles/vrt"
 	"github.com/vektah/gqlparser/v2"
+	"github.com/vektah/gqlparser/v2/ast"
 )
 
 // C17: subscription events are delivered once, in order, fully stitched.
@@ -212,6 +213,20 @@ func c17ConnVerdict(h *gwHarness, sc c17Scenario, srv *vrt.Conn, c int) string {
 		epoch := 0
 		for _, act := range script {
 			switch act {
+			case "nullevent":
+				n++
+				// every root field of the event is null
+				nd := map[string]interface{}{}
+				for _, sel := range doc.Operations[0].SelectionSet {
+					if f, ok := sel.(*ast.Field); ok {
+						k := f.Alias
+						if k == "" {
+							k = f.Name
+						}
+						nd[k] = nil
+					}
+				}
+				want = append(want, map[string]interface{}{"data": nd})
 			case "event", "dataerrors", "event-changed", "event-fragmented":
 				if act == "event-changed" {
 					// the same entity again after the data of the services has changed
@@ -353,6 +368,10 @@ func c17Scenarios(tier string) []c17Scenario {
 		out = append(out, c17Scenario{world: "W0+subscription-roots+entity-scalar-arg-default", subs: []string{vq},
 			vars: []map[string]interface{}{{"p": "en"}}, up: [][]upAction{{"event", "event"}}, bound: 1, planner: "plain"})
 	}
+	// a nullable subscription field whose event is null: forwarded as null, nothing to stitch
+	for _, s := range [][]upAction{{"nullevent"}, {"nullevent", "event"}, {"event", "nullevent"}} {
+		out = append(out, c17Scenario{world: "W0+subscription-roots", subs: []string{"subscription { n1Maybe { name phone } }"}, up: [][]upAction{s}, bound: 1, planner: "plain"})
+	}
 	// (what is forwarded does not hang on the schedule: default schedule and forced switches; thorough: one preemption)
 	dvb := 0
 	if tier == "thorough" {
@@ -405,7 +424,7 @@ func c17Scenarios(tier string) []c17Scenario {
 func init() {
 	Specs["C17"] = &Spec{
 		ID: "C17",
-		Rule: "scenario = (1-2 subscriptions on one connection (also two connections in sequence on one gateway) out of 9 subscription operations (one with a per-subscription variable for a field of another service) whose selection needs 0, 1 or 2 other services, lists, value types, aliases, __typename; upstream event history per subscription over {event, event sent as a fragmented websocket message, error payload, error message with an object payload (ends the operation) and with a list payload, 11 s of silence, event with data and errors, complete, the previous event again after every value of the services' data has changed} " +
+		Rule: "scenario = (1-2 subscriptions on one connection (also two connections in sequence on one gateway) out of 9 subscription operations (one with a per-subscription variable for a field of another service) whose selection needs 0, 1 or 2 other services, lists, value types, aliases, __typename; upstream event history per subscription over {event, event whose root field is null, event sent as a fragmented websocket message, error payload, error message with an object payload (ends the operation) and with a list payload, 11 s of silence, event with data and errors, complete, the previous event again after every value of the services' data has changed} " +
 			"of length <=3; planner plain/cached); the real subscriptionHandler / subscriptionEntry / MultiOpQueryer.Subscribe (rewritten) run over scheduler-aware pipes against a gobwas upstream and evaluating in-memory services; " +
 			"every schedule with <=1 preemption (two subscriptions: bound 0 quick, 1 thorough) is executed; the client terminates once the system is idle; plus a slow reader (16-byte receive buffer, nothing read from 0 to 6.5 s while events arrive and the 4 s heartbeat comes due, terminate at 10 s); oracle at the client's frame parser: per subscription id the sequence of data payloads " +
 			"== reference evaluation of the client operation on each emitted event, in emission order, exactly once, helpers absent, never under another id, upstream error payloads arrive as errors; non-trivial = >1 execution",
